@@ -239,8 +239,9 @@ class Facts:
 
 
 class Prover:
-    def __init__(self, facts):
+    def __init__(self, facts, orthant=True):
         self.f = facts
+        self.orthant = orthant      # False: atoms may be negative (positions); only ordering facts and min/max structure are used
         self.log = []
 
     # ---- polynomials: {tuple(sorted atom keys)} -> Fraction ----
@@ -371,11 +372,22 @@ class Prover:
                 f2.facts = list(self.f.facts)
                 f2.hyp_lb = dict(self.f.hyp_lb)
                 f2.add_cond(cd[1], val)
-                if not Prover(f2).prove_ge(substitute(a, cd, arm), substitute(b, cd, arm)):
+                if not Prover(f2, self.orthant).prove_ge(substitute(a, cd, arm), substitute(b, cd, arm)):
                     return False
+            return True
+        # min / max structure
+        if a[0] == "call" and a[1] == "min" and len(a) >= 5:
+            return all(self.prove_ge(x, b) for x in a[3:])
+        if b[0] == "call" and b[1] == "max" and len(b) >= 5:
+            return all(self.prove_ge(a, y) for y in b[3:])
+        if a[0] == "call" and a[1] == "max" and len(a) >= 5 and any(self.prove_ge(x, b) for x in a[3:]):
+            return True
+        if b[0] == "call" and b[1] == "min" and len(b) >= 5 and any(self.prove_ge(a, y) for y in b[3:]):
             return True
         if self.f.derives(a, b):
             return True
+        if not self.orthant:
+            return False
         pa, pb = self.poly(a), self.poly(b)
         if pa is None or pb is None:
             return False
@@ -401,6 +413,8 @@ class Prover:
                     v = float(rnd.randint(0, 6))
                 else:
                     v = 10 ** rnd.uniform(-2, 2)
+                if not self.orthant and rnd.random() < 0.5:
+                    v = -v
                 if lb is not None:
                     v = float(lb) + (0.0 if rnd.random() < 0.4 else v)
                 env[at] = v
